@@ -23,7 +23,9 @@ func Ports(svc *v1.Service) []allocator.Port {
 // BackendKey extracts the backend key for a service.
 func BackendKey(svc *v1.Service) string {
 	if svc.Spec.ExternalTrafficPolicy == v1.ServiceExternalTrafficPolicyTypeLocal {
-		return labels.Set(svc.Spec.Selector).String()
+		// The prefix keeps a Local service without selector from getting the
+		// (empty) key of the Cluster services and sharing with any of them.
+		return "local:" + labels.Set(svc.Spec.Selector).String()
 	}
 	// Cluster traffic policy can share services regardless of backends.
 	return ""
